@@ -1,8 +1,12 @@
 (* C17 — amounts convert between BCH floats, satoshi integers and text without loss.
-   Only statements; every proof is `exact <lemma proved elsewhere>`. *)
-From Coq Require Import ZArith Reals.
+   Only statements; every proof is `exact <lemma proved elsewhere>`.
+   Model: Amount/Amount.v on Flocq binary64.  RN x is the binary64 round-to-nearest-even of the
+   real x; nearest_away y n says n is the integer nearest to y, ties away from zero
+   (Amount/RoundProofs.v; nearest_away_unique shows it determines n). *)
+From Coq Require Import ZArith Reals List.
 From Flocq Require Import Core IEEE754.BinarySingleNaN.
-From BU Require Import Lib.Bytes Gen.Xbchutil Amount.Amount Amount.RoundProofs.
+From BU Require Import Lib.Bytes Gen.Xbchutil Amount.Amount Amount.RoundProofs Amount.UnitProofs
+  Amount.TextProofs Amount.FormatProofs.
 
 (* NewAmount errors exactly on NaN and the infinities *)
 Theorem C17_new_amount_rejects_nan_inf : forall f : float,
@@ -15,3 +19,110 @@ Theorem C17_round_nearest : forall y : float,
   is_finite y = true -> (Rabs (B2R y) < IZR (2 ^ 62))%R -> nearest_away (B2R y) (round y).
 Proof. exact round_nearest. Qed.
 Print Assumptions C17_round_nearest.
+
+Theorem C17_round_odd : forall y : float,
+  is_finite y = true -> (Rabs (B2R y) < IZR (2 ^ 62))%R -> round (Bopp y) = (- round y)%Z.
+Proof. exact round_odd. Qed.
+Print Assumptions C17_round_odd.
+
+Theorem C17_round_monotone : forall y1 y2 : float,
+  is_finite y1 = true -> is_finite y2 = true ->
+  (Rabs (B2R y1) < IZR (2 ^ 62))%R -> (Rabs (B2R y2) < IZR (2 ^ 62))%R ->
+  (B2R y1 <= B2R y2)%R -> (round y1 <= round y2)%Z.
+Proof. exact round_monotone. Qed.
+Print Assumptions C17_round_monotone.
+
+(* NewAmount(f): the integer nearest to the single floating-point product fl(f * 1e8), ties away *)
+Theorem C17_new_amount_nearest : forall f : float,
+  is_finite f = true -> (Rabs (RN (B2R f * IZR c_SatoshiPerBitcoin)) < IZR (2 ^ 62))%R ->
+  exists n, new_amount f = Ok n /\ nearest_away (RN (B2R f * IZR c_SatoshiPerBitcoin)) n.
+Proof. exact new_amount_nearest. Qed.
+Print Assumptions C17_new_amount_nearest.
+
+Theorem C17_new_amount_odd : forall (f : float) n,
+  is_finite f = true -> (Rabs (RN (B2R f * IZR c_SatoshiPerBitcoin)) < IZR (2 ^ 62))%R ->
+  new_amount f = Ok n -> new_amount (Bopp f) = Ok (- n)%Z.
+Proof. exact new_amount_odd. Qed.
+Print Assumptions C17_new_amount_odd.
+
+Theorem C17_new_amount_monotone : forall (f1 f2 : float) n1 n2,
+  is_finite f1 = true -> is_finite f2 = true ->
+  (Rabs (RN (B2R f1 * IZR c_SatoshiPerBitcoin)) < IZR (2 ^ 62))%R ->
+  (Rabs (RN (B2R f2 * IZR c_SatoshiPerBitcoin)) < IZR (2 ^ 62))%R ->
+  (B2R f1 <= B2R f2)%R -> new_amount f1 = Ok n1 -> new_amount f2 = Ok n2 -> (n1 <= n2)%Z.
+Proof. exact new_amount_monotone. Qed.
+Print Assumptions C17_new_amount_monotone.
+
+(* every whole number of satoshi up to the 21-million-coin cap survives ToBCH then NewAmount *)
+Theorem C17_roundtrip_21M : forall a : Z,
+  (Z.abs a <= c_MaxSatoshi)%Z -> new_amount (to_bch a) = Ok a.
+Proof. exact roundtrip_21M. Qed.
+Print Assumptions C17_roundtrip_21M.
+
+(* ToUnit for Satoshi .. 1e14 BCH: the correctly rounded quotient a / 10^(u+8) (one division,
+   both operands exact) *)
+Theorem C17_to_unit_correct : forall a u : Z,
+  (Z.abs a <= 2 ^ 53)%Z -> (0 <= u + 8 <= 22)%Z ->
+  B2R (to_unit a u) = RN (IZR a / IZR (10 ^ (u + 8))) /\ is_finite (to_unit a u) = true.
+Proof. exact to_unit_correct. Qed.
+Print Assumptions C17_to_unit_correct.
+
+(* ... and below Satoshi: a division by the ROUNDED reciprocal power, not the correctly rounded
+   product (root cause of known finding C17:format:unit<-8) *)
+Theorem C17_to_unit_subsatoshi : forall a u : Z,
+  (Z.abs a <= 2 ^ 53)%Z -> (-22 <= u + 8 < 0)%Z ->
+  B2R (to_unit a u) = RN (IZR a / RN (1 / IZR (10 ^ (- (u + 8))))) /\ is_finite (to_unit a u) = true.
+Proof. exact to_unit_subsatoshi. Qed.
+Print Assumptions C17_to_unit_subsatoshi.
+
+(* the only decimal with at most k = u+8 fractional digits that parses back to ToUnit's float
+   is a * 10^-k: a correct shortest-round-trip printer has no other choice *)
+Theorem C17_unit_text_unique : forall a m k : Z,
+  (Z.abs a <= c_MaxSatoshi)%Z -> (0 <= k <= 22)%Z ->
+  RN (IZR m / IZR (10 ^ k)) = B2R (to_unit a (k - 8)) -> m = a.
+Proof. exact unit_text_unique. Qed.
+Print Assumptions C17_unit_text_unique.
+
+(* Format = exact decimal text + " " + label, for any printer meeting shortest_printer_spec
+   (FormatProofs.v: the statement of what is trusted about strconv.FormatFloat(f,'f',-1,64)).
+   _partial: strconv itself is not verified; the hypothesis is exercised on every run
+   (cases Short/FmtO parse the printed text back inside Coq, the monitor compares exact rationals). *)
+Theorem C17_format_exact_partial : forall shortest : float -> list N,
+  shortest_printer_spec shortest ->
+  forall a u : Z, (Z.abs a <= c_MaxSatoshi)%Z -> (c_AmountSatoshi <= u <= 14)%Z ->
+  format shortest a u = format_spec a u.
+Proof. exact format_exact. Qed.
+Print Assumptions C17_format_exact_partial.
+
+Theorem C17_unit_labels :
+  unit_string c_AmountMegaBCH = [77; 66; 67; 72]%N /\
+  unit_string c_AmountKiloBCH = [107; 66; 67; 72]%N /\
+  unit_string c_AmountBCH = [66; 67; 72]%N /\
+  unit_string c_AmountMilliBCH = [109; 66; 67; 72]%N /\
+  unit_string c_AmountMicroBCH = [206; 188; 66; 67; 72]%N /\
+  unit_string c_AmountSatoshi = [83; 97; 116; 111; 115; 104; 105]%N /\
+  (c_AmountMegaBCH, c_AmountKiloBCH, c_AmountBCH, c_AmountMilliBCH, c_AmountMicroBCH, c_AmountSatoshi)
+    = (6, 3, 0, -3, -6, -8)%Z /\
+  forall u, ~ In u [c_AmountMegaBCH; c_AmountKiloBCH; c_AmountBCH; c_AmountMilliBCH; c_AmountMicroBCH; c_AmountSatoshi] ->
+    unit_string u = ([49; 101]%N ++ dec_Z u ++ [32; 66; 67; 72]%N).
+Proof. exact unit_labels. Qed.
+Print Assumptions C17_unit_labels.
+
+(* the exact-text statement is false below Satoshi: Amount(2099999999999999).Format(-9) *)
+Theorem C17_format_subsatoshi_refuted :
+  exists a u : Z, (Z.abs a <= c_MaxSatoshi)%Z /\ (u < c_AmountSatoshi)%Z /\ (-12 <= u)%Z /\
+    int_value (to_unit a u) = Some 20999999999999988%Z /\
+    (a * 10 ^ (- (u + 8)) = 20999999999999990)%Z /\
+    forall shortest, format shortest a u =
+      [50;48;57;57;57;57;57;57;57;57;57;57;57;57;57;56;56;46;48;32;49;101;45;57;32;66;67;72]%N.
+Proof. exact format_subsatoshi_refuted. Qed.
+Print Assumptions C17_format_subsatoshi_refuted.
+
+(* hypotheses are satisfiable: one satoshi, the cap, a tie *)
+Example C17_example_roundtrip :
+  new_amount (to_bch 1) = Ok 1%Z /\ new_amount (to_bch (- c_MaxSatoshi)) = Ok (- c_MaxSatoshi)%Z /\
+  format_spec 2099999999999999 c_AmountBCH =
+    [50;48;57;57;57;57;57;57;46;57;57;57;57;57;57;57;57;32;66;67;72]%N /\
+  new_amount (of_bits 0x3E35798EE2308C39) = Ok 0%Z (* 4.9999999999999992774e-09 *) /\
+  round (of_bits 0x3FE0000000000000) = 1%Z /\ round (of_bits 0xBFE0000000000000) = (-1)%Z (* +-0.5 *).
+Proof. vm_compute. repeat split. Qed.
